@@ -403,7 +403,7 @@ def run(prog, rep, tier):
                 nde += 1
                 rep.ob('ALLOC', False, 'ALLOC|%s|bincode-free-fn-unbounded' % body.nkey,
                        'bincode::%s (default options: no size limit) deserialises untrusted data: a length field of the input becomes an allocation size' % t.cmethod, body.loc(b.idx))
-    rep.floor('ALLOC.bincode', nde, 3, 'bincode deserialisations in scope')
+    rep.floor('ALLOC.bincode', nde, 2, 'bincode deserialisations in scope')
 
     # ---------------- RECUR (direct self recursion)
     rtab = {e['key']: e for e in load_table('recursion.json')['self_calls']}
